@@ -51,7 +51,11 @@ MANIFEST = dict(
          "body wrote before it raised, no path on which the caller gets no result publishes anything (a commit in a handler or in `finally` breaks this "
          "theorem; witness commit_in_finally_half_commits_refuted).  Every upload of every history goes through the extended programs; histories contain "
          "uploads refused part-way at every such place (new / overwrite / inside an auto-inserting isotherm upload / metadata / data columns), each followed "
-         "by retrievals and the corrected upload; a refused call that changed any table row is reported with the call as failing input. The "
+         "by retrievals and the corrected upload; a refused call that changed any table row is reported with the call as failing input; so is a refused "
+         "call that left the file unchanged but lost an entry of the session registries.  VALUE KINDS: what an isotherm property comes back as is "
+         "conv_iso (check_SQL_bool after REAL affinity after the TRUE/FALSE encoding): proved - text comes back as the same text IF AND ONLY IF it is "
+         "not one of the two storage tokens (refuted witness 'TRUE', finding C08-F8), booleans come back as booleans; histories carry text that looks "
+         "like booleans / None / special floats / other literals in every spelling, compared with the model's decoding on every retrieval. The "
          "hand-written model is tied to the code on every run by executing it inside Coq against the implementation on random histories (outcome, "
          "statement count, every table row, counters, registries, retrieval results after every call).",
     note="Trusted: Coq kernel; SQLite/sqlite3 behaving as the constraint model says (validated by the table-level comparison after every call); "
@@ -661,6 +665,13 @@ UADS = ['ua_x', 'ua_y', 'ua_z']
 SHIPPED = ['nitrogen', 'argon']
 PTYPES = ['density', 'note', 'tag', 'molar_mass', 'grade']
 WORDS = ['alpha', 'beta', 'gamma', 'x y', 'ok']
+# free text that LOOKS like a value of another type (booleans, None, special floats, literals of other bases / locales, containers) but is text:
+# sqlite stores it verbatim in the REAL-affinity value columns (measured), so what comes back must be the same str.  Not in here: text that
+# sqlite's affinity turns into a number (NUMPOOL, finding C08-F3) and the two storage tokens of isotherm booleans (BOOLTOKENS)
+LOOKALIKE = ['true', 'false', 'True', 'False', 'tRuE', 'fALSE', 'None', 'none', 'null', 'NULL', 'nan', 'NaN', 'inf', '-inf', 'Infinity', '0x10', '1_000', '1e',
+             '1,5', '12L', 'yes', 'no', 'on', 'T', 'F', '[]', '{}', "'q'", 'TRUE ', ' FALSE', 'true\n']
+# the two tokens isotherm_to_db writes for Python booleans: the same text given as a str is stored verbatim and read back as a bool (finding C08-F8)
+BOOLTOKENS = ['TRUE', 'FALSE']
 ZEROLIKE = [0.0, '', 0, -0.0]
 
 
@@ -692,6 +703,8 @@ def gen_value(rnd, numeric_text=0.08, none=0.03, lists=0.06, pybad=0.0):
     if r < lists: return [rnd.choice(WORDS), rnd.choice(WORDS) + '2']
     if rnd.random() < 0.12:
         return rnd.choice(ZEROLIKE)                  # storable values that are falsy in Python
+    if rnd.random() < 0.15:
+        return rnd.choice(LOOKALIKE + BOOLTOKENS)    # text that looks like a bool / None / special float / other literal
     return rnd.choice([rnd.choice(WORDS), round(rnd.uniform(0.5, 9.5), 2), float(rnd.randint(1, 5)), rnd.randint(1, 9)])
 
 
@@ -700,7 +713,7 @@ def gen_iso(rnd, pybad=0.0):
     meta = {}
     for key in rnd.sample(['operator', 'batch', 'note', 'flag', 'run'], rnd.randint(0, 3)):
         r = rnd.random()
-        meta[key] = (rnd.choice(WORDS) if r < 0.45 else rnd.choice(sorted(NUMPOOL)) if r < 0.55 else rnd.randint(1, 9) if r < 0.63
+        meta[key] = (rnd.choice(WORDS) if r < 0.3 else rnd.choice(LOOKALIKE + BOOLTOKENS + BOOLTOKENS) if r < 0.45 else rnd.choice(sorted(NUMPOOL)) if r < 0.55 else rnd.randint(1, 9) if r < 0.63
                      else rnd.choice([True, False]) if r < 0.73 else rnd.choice(ZEROLIKE) if r < 0.85 else round(rnd.uniform(1, 5), 3))
     if rnd.random() < 0.05:
         meta['pressure_mode'] = 'relative'        # the constructor sets pressure_unit None: NOT NULL refuses the upload
@@ -976,9 +989,9 @@ def retrieval_check(path, crit, res):
             % (crit or None, len(got), len(want), missing[:3]))
 
 
-def same_content(obj, x):
+def same_content(obj, x, booltokens=False):
     """is the retrieved isotherm x the stored isotherm obj, up to the KNOWN defects of the pinned tree (the extra iso_type key, integers and
-    numeric-looking text coming back as floats through the REAL column)?"""
+    numeric-looking text coming back as floats through the REAL column; with booltokens=True also: the str 'TRUE' / 'FALSE' coming back as that bool)?"""
     import pygaps
     if type(x) is not type(obj):
         return False
@@ -991,6 +1004,8 @@ def same_content(obj, x):
         vb = b[k]
         if k == 'material':
             va = va['name'] if isinstance(va, dict) else str(va); vb = vb['name'] if isinstance(vb, dict) else str(vb)
+        if booltokens and isinstance(va, str) and va in BOOLTOKENS and vb is (va == 'TRUE'):
+            continue
         if isinstance(va, bool) or isinstance(vb, bool):
             if va is not vb:
                 return False
@@ -1031,6 +1046,8 @@ def classify(op, kind, ctx):
             return 'C08:registry-keeps-rolled-back-autoinsert'
         if ctx.get('reg_vs_file'):
             return 'C08:registry-not-per-file'
+    if kind in ('roundtrip-booltoken', 'content') and k == 'IsoUp' and any(isinstance(v, str) and v in BOOLTOKENS for v in op['iso']['meta'].values()):
+        return 'C08:text-TRUE-FALSE-read-back-as-bool'
     if kind in ('content', 'roundtrip') and has_numtext(op):
         return 'C08:numeric-text-real-affinity'
     if kind == 'roundtrip' and k == 'EntUp' and op['e'] == 'mat' and any(isinstance(v, list) and len(v) > 1 for v in op['props'].values()):
@@ -1277,6 +1294,13 @@ def run_history(im, I, H, nfiles, raw0, capture=None, lean=False, cuts=()):
         if oc != 'Ok' and reg2 != reg:
             new = {r[0] for r in reg2[0]} - {r[0] for r in reg[0]} | {r[0] for r in reg2[1]} - {r[0] for r in reg[1]}
             leaked |= new
+            # a refused call that left the file as it was must leave the session registries (the state later auto-inserting uploads depend on) as they
+            # were too.  Entries ADDED by a refused upload are the known finding C08-F5 (judged where a later upload trips over them); entries LOST:
+            lost = sorted(({r[0] for r in reg[0]} - {r[0] for r in reg2[0]}) | ({r[0] for r in reg[1]} - {r[0] for r in reg2[1]}))
+            if lost and not changed_file:
+                names = {v: k for k, v in I.atoms.items()}
+                st['checks'].append(('refused-forgot-registry', '%s is refused (%s) and leaves the database file unchanged, yet the session registries '
+                                     '(MATERIAL_LIST / ADSORBATE_LIST) no longer hold %r' % (_plain(op), oc, [names.get(a, a) for a in lost])))
         # round trip of accepted uploads, on the implementation
         if oc == 'Ok' and op['k'] == 'EntUp':
             im.px.n = 0
@@ -1300,7 +1324,8 @@ def run_history(im, I, H, nfiles, raw0, capture=None, lean=False, cuts=()):
                 # ... which on the pinned tree is always so (iso_type leak).  Beyond the known defects: does it come back with equal content?
                 if not any(same_content(obj, x) for x in got):
                     twin = [x for x in got if type(x) is type(obj) and str(x.material) == str(obj.material) and float(x.temperature) == float(obj.temperature)]
-                    st['checks'].append(('roundtrip-content', 'stored isotherm %s with parameters %r does not come back with equal content; closest retrieved: %r'
+                    only_tokens = any(same_content(obj, x, booltokens=True) for x in got)       # nothing but 'TRUE' / 'FALSE' text read back as bool
+                    st['checks'].append(('roundtrip-booltoken' if only_tokens else 'roundtrip-content', 'stored isotherm %s with parameters %r does not come back with equal content; closest retrieved: %r'
                                          % (obj.iso_id, {k: v for k, v in obj.to_dict().items() if k not in UNITS}, [{k: v for k, v in x.to_dict().items() if k not in UNITS} for x in twin[-2:]])))
         if op['k'] == 'IsoDel' and op['how'] == 'retrieved' and not ctx.get('retrieved_same_id', True):
             st['checks'].append(('delete-through-retrieved', 'isotherm %s retrieved from the file has id %s; deleting through it -> %s' % (ctx['stored_id'], op['target'], oc)))
@@ -1392,7 +1417,9 @@ def judge(rep, runs, model, I, header=None, raw0=None):
                        'deletions by name/object/id/retrieved object, retrievals with/without criteria, duplicates, absent items, None / numeric-looking '
                        'text / list / zero-like (0, 0.0, -0.0, empty string, False) values) + stores holding more isotherms than one and than two batches of the '
                        'batch size found in the source (retrieved with and without criteria, counted against rows read through an independent connection, '
-                       'deleted through retrieved objects of the last batch) + uploads refused part-way by Python-level code (unbindable property / metadata '
+                       'deleted through retrieved objects of the last batch); text values that look like another type (spellings of true / false / None / nan / inf, hex, '
+                       'digit separators, decimal comma, container literals, the storage tokens TRUE / FALSE) as properties of adsorbates, materials and isotherms: what '
+                       'comes back must be the same str; after every refused call the session registries must still hold what they held + uploads refused part-way by Python-level code (unbindable property / metadata '
                        'values of 3 exception classes, extra data columns of int / bool / str / float / big-int elements, non-isotherm arguments, '
                        'unbindable arguments of deletions / retrievals / type uploads), alone and inside random histories; non-trivial = distinct accepted operations that changed a table, agreed with the '
                        'model on every row and were accepted with equal content by the dictionary model')
